@@ -604,7 +604,7 @@ class Rewriter:
                 i += 1
             name = r.get('name', r['match'])
             self.R.fire('rule:' + name, count)
-            lo = r.get('min', 1)
+            lo = r.get('min', 0)     # a rule that no longer fires is harmless: residual C++ is rejected by goto-cc (exit 2); counts go to evidence
             if count < lo:
                 raise ExtractionBreak(f"declared rule fired {count} < {lo} times in {self.prefix}: {r['match']}")
         return t
